@@ -82,7 +82,7 @@ func obsParser(p *parsers.ExpressionParser, text string) []any {
 	for _, x := range rp {
 		flat = append(flat, x[0]+":"+x[1])
 	}
-	return []any{"ok", strings.Join(flat, " "), strings.Join(p.VariableNames(), ",")}
+	return []any{"ok", strings.Join(flat, " "), strings.Join(p.VariableNames(), ","), tokRender(p.OriginalTokens())}
 }
 
 func c05vars() *variables.VariableCollection {
